@@ -140,6 +140,11 @@ def gen_coll(ctx, f, name=None, nmax=8, mode=None, deflt=None, wide=False):
             else:
                 deflt = str(rng.choice([0, max(ivals) + step, max(0, max(ivals))]))
                 ivals = [v for v in ivals if v <= int(deflt)]
+        # library contract: default <= all values (max) / >= all values (min)
+        if mode == "max":
+            ivals = [v for v in ivals if v >= int(deflt)]
+        else:
+            ivals = [v for v in ivals if v <= int(deflt)]
         mvals = [str(v) for v in ivals] or [deflt]
     parts = ["coll", name, f.name, mode, deflt]
     for _ in range(n):
@@ -503,6 +508,17 @@ def gen_C05(rng):
                 op = "plus"
             ctx.emit("apply %s %s %s %s %s" % (n, fr.name, op, a, b))
             ctx.edges[n] = fr
+        elif r < 0.62 and rngtype == "int":
+            # division / modulo by a divisor that is nowhere zero
+            dv = ctx.fresh("d")
+            parts = ["coll", dv, fr.name, "min", "3"]
+            for _ in range(rng.choice([0, 1, 2, 3])):
+                pos = rand_pos_rel(rng, fr.dom, .3, .2) if rel else rand_pos_set(rng, fr.dom, .3)
+                parts += [";"] + pos + ["=>", str(rng.choice([1, 2, -1, -2, -3]))]
+            ctx.emit(" ".join(parts))
+            ctx.edges[dv] = fr
+            ctx.emit("apply %s %s %s %s %s" % (n, fr.name, rng.choice(["div", "mod"]), a, dv))
+            ctx.edges[n] = fr
         elif r < 0.8:
             tgt = rng.choice([fb, fr])
             ctx.emit("apply %s %s %s %s %s" % (n, tgt.name, rng.choice(CMP), a, b))
@@ -725,6 +741,20 @@ def gen_C11(rng):
         for _ in range(rng.randint(1, 3)):
             ctx.emit("iter %s %s" % (e, rand_mask(rng, f)))
         ctx.emit("card %s" % e)
+    # re-used iterator objects: restart on other edges of the same forest with
+    # other masks (positions that were free become fixed and vice versa), also
+    # after stopping in the middle of an enumeration
+    byforest = {}
+    for e, f in ctx.edges.items():
+        byforest.setdefault(f.name, []).append(e)
+    for fname, es in byforest.items():
+        f = ctx.edges[es[0]]
+        for _ in range(rng.randint(2, 6)):
+            e = rng.choice(es)
+            limit = rng.choice([-1, -1, -1, 0, 1, 2, 5])
+            r = rng.random()
+            mask = "" if r < 0.3 else rand_mask(rng, f)
+            ctx.emit(("iter2 I%s %s %d %s" % (fname, e, limit, mask)).rstrip())
     return ctx.text()
 
 
@@ -1010,6 +1040,177 @@ def gen_C14(rng):
                 ctx.emit("eq %s %s" % (r, roots[i]))
         ctx.emit("audit %s" % tgt.split()[0])
     # release everything read: counts must return to exact
+    return ctx.text()
+
+
+def gen_C16(rng):
+    """deliberate misuse: every call must raise the documented error, and
+    afterwards everything obtained earlier is intact and usable"""
+    ctx = Ctx(rng)
+    ctx.emit("init " + rand_ctopts(rng))
+    d1 = rand_domain(rng, "D1", False, 60, 3)
+    d2 = Domain("D2", [rng.choice([2, 3, 4]) for _ in range(len(d1.sizes) + rng.choice([0, 1]))])
+    if d2.sizes == d1.sizes:
+        d2.sizes[0] += 1
+    ctx.emit(d1.decl())
+    ctx.emit(d2.decl())
+    S1 = Forest("S1", d1, False, "bool", "mt", rng.choice(RULES_SET), rand_opts(rng))
+    R1 = Forest("R1", d1, True, "bool", "mt", rng.choice(RULES_REL), rand_opts(rng))
+    S2 = Forest("S2", d2, False, "bool", "mt", rng.choice(RULES_SET), rand_opts(rng))
+    I1 = Forest("I1", d1, False, "int", "mt", rng.choice(RULES_SET), rand_opts(rng))
+    J1 = Forest("J1", d1, True, "int", "mt", rng.choice(RULES_REL), rand_opts(rng))
+    for f in (S1, R1, S2, I1, J1):
+        ctx.emit(f.decl())
+        ctx.forests.append(f)
+    a = gen_coll(ctx, S1, "a")
+    a2 = gen_coll(ctx, S1, "a2")
+    b = gen_coll(ctx, S2, "b")
+    c = gen_leaf(ctx, R1, "c")
+    n = gen_coll(ctx, I1, "n", mode="max", deflt="0")
+    n2 = gen_coll(ctx, I1, "n2", mode="max", deflt="0")
+    m = gen_leaf(ctx, J1, "m")
+    held = ["a", "a2", "b", "c", "n", "n2", "m"]
+
+    def after():
+        for e in held:
+            ctx.emit("show %s" % e)
+        for f in (S1, R1, S2, I1, J1):
+            ctx.emit("audit %s" % f.name)
+        x = ctx.fresh("ok")
+        ctx.emit("apply %s S1 %s a a2" % (x, rng.choice(SETOPS)))
+        x = ctx.fresh("ok")
+        ctx.emit("apply %s I1 %s n n2" % (x, rng.choice(["plus", "max", "min"])))
+
+    misuses = [
+        lambda: ctx.emit("apply %s S1 %s a b" % (ctx.fresh("x"), rng.choice(SETOPS))),          # domains
+        lambda: ctx.emit("apply %s S2 %s a a2" % (ctx.fresh("x"), rng.choice(SETOPS))),         # result domain
+        lambda: ctx.emit("apply %s S1 %s a c" % (ctx.fresh("x"), rng.choice(SETOPS))),          # set vs relation
+        lambda: ctx.emit("apply %s R1 %s a a2" % (ctx.fresh("x"), rng.choice(SETOPS))),         # result relation
+        lambda: ctx.emit("apply %s I1 %s n m" % (ctx.fresh("x"), rng.choice(["plus", "max"]))), # set vs relation (int)
+        lambda: ctx.emit("apply %s S1 cross a c" % ctx.fresh("x")),                              # cross shape
+        lambda: ctx.emit("apply %s S1 post a a2" % ctx.fresh("x")),                              # image needs a relation
+        lambda: ctx.emit("constinto a I1 3"),                                                    # edge of another forest
+        lambda: ctx.emit("constinto n S1 1"),
+        lambda: ctx.emit("const %s I1 %d" % (ctx.fresh("x"), rng.choice([1073741824, -1073741825, 2147483647, 1 << 40]))),
+        lambda: ctx.emit("iterpast %s" % rng.choice(["a", "n", "c"])),
+    ]
+    # division by zero at depth: divisor zero somewhere, dividend nowhere zero there
+    def divzero():
+        z = ctx.fresh("z")
+        parts = ["coll", z, "I1", "max", "0"]
+        for _ in range(rng.choice([1, 2, 3])):
+            parts += [";"] + rand_pos_set(rng, d1, 0.3) + ["=>", str(rng.choice([1, 2, 3]))]
+        ctx.emit(" ".join(parts))
+        held.append(z)
+        k = ctx.fresh("k")
+        ctx.emit("const %s I1 %d" % (k, rng.choice([1, 5, 7])))
+        held.append(k)
+        ctx.emit("apply %s I1 %s %s %s" % (ctx.fresh("x"), rng.choice(["div", "mod"]), k, z))
+    misuses.append(divzero)
+    rng.shuffle(misuses)
+    for mis in misuses[: rng.randint(3, 8)]:
+        mis()
+        after()
+    # use of an edge whose forest was destroyed
+    if rng.random() < 0.7:
+        ctx.emit("destroyforest S1")
+        held2 = [e for e in held if e not in ("a", "a2")]
+        ctx.emit("attached a")
+        ctx.emit("show a")
+        ctx.emit("evalx a")
+        ctx.emit("apply %s S2 union a b" % ctx.fresh("x"))
+        ctx.emit("apply %s I1 plus n n2" % ctx.fresh("ok"))
+        for e in held2:
+            ctx.emit("show %s" % e)
+        for f in (R1, S2, I1, J1):
+            ctx.emit("audit %s" % f.name)
+    return ctx.text()
+
+
+def gen_C17(rng):
+    """create and destroy domains, forests and edges in random orders, with
+    operations spanning destroyed and surviving forests; repeated init/cleanup"""
+    ctx = Ctx(rng)
+    for cycle in range(rng.choice([1, 2, 3])):
+        ctx.emit("init " + rand_ctopts(rng))
+        doms = {}
+        forests = {}        # name -> Forest (alive)
+        edges = {}          # name -> forest name
+        nd = rng.choice([1, 2, 3])
+        for i in range(nd):
+            dname = "D%d_%d" % (cycle, i)
+            d = rand_domain(rng, dname, False, 30, 3)
+            ctx.emit(d.decl())
+            doms[dname] = d
+        nf = 0
+        for step in range(rng.randint(6, 18)):
+            r = rng.random()
+            alive_f = list(forests)
+            if r < 0.3 or not alive_f:
+                if not doms:
+                    continue
+                dname = rng.choice(list(doms))
+                fname = "F%d_%d" % (cycle, nf)
+                nf += 1
+                rel = rng.random() < 0.3
+                f = Forest(fname, doms[dname], rel, "bool", "mt", rng.choice(RULES_REL if rel else RULES_SET),
+                           rand_opts(rng) + " showfid=1")
+                ctx.emit(f.decl())
+                forests[fname] = f
+            elif r < 0.55:
+                fname = rng.choice(alive_f)
+                e = ctx.fresh("e")
+                gen_coll(ctx, forests[fname], e, nmax=4)
+                edges[e] = fname
+            elif r < 0.7:
+                # operation among forests of one domain (fills the compute tables)
+                es = [e for e in edges if edges[e] in forests]
+                if len(es) >= 2:
+                    a, b = rng.choice(es), rng.choice(es)
+                    fa, fb = forests[edges[a]], forests[edges[b]]
+                    tg = [f for f in forests.values() if f.dom is fa.dom and f.rel == fa.rel]
+                    if fa.dom is fb.dom and fa.rel == fb.rel and tg:
+                        x = ctx.fresh("e")
+                        t = rng.choice(tg)
+                        ctx.emit("apply %s %s %s %s %s" % (x, t.name, rng.choice(SETOPS), a, b))
+                        edges[x] = t.name
+            elif r < 0.82:
+                fname = rng.choice(alive_f)
+                ctx.emit("destroyforest %s" % fname)
+                del forests[fname]
+                for e in edges:
+                    ctx.emit("attached %s" % e)
+                gone = [e for e in edges if edges[e] == fname]
+                if gone:
+                    g = rng.choice(gone)
+                    ctx.emit("show %s" % g)
+                    ctx.emit("evalx %s" % g)
+                    live = [e for e in edges if edges[e] in forests]
+                    if live:
+                        o = rng.choice(live)
+                        ctx.emit("apply %s %s union %s %s" % (ctx.fresh("x"), edges[o], g, o))
+            elif r < 0.88 and len(doms) > 1:
+                dname = rng.choice(list(doms))
+                ctx.emit("destroydomain %s" % dname)
+                for fname in [f for f in forests if forests[f].dom is doms[dname]]:
+                    del forests[fname]
+                del doms[dname]
+                for e in edges:
+                    ctx.emit("attached %s" % e)
+            elif edges:
+                e = rng.choice(list(edges))
+                if rng.random() < 0.5:
+                    ctx.emit("release %s" % e)
+                    del edges[e]
+                elif edges[e] in forests:
+                    ctx.emit("show %s" % e)
+        # survivors still work
+        for e in edges:
+            if edges[e] in forests:
+                ctx.emit("show %s" % e)
+        for f in forests:
+            ctx.emit("audit %s" % f)
+        ctx.emit("cleanup")
     return ctx.text()
 
 
